@@ -94,6 +94,12 @@ fn foreign6(rng: &mut Rng, agreed: [u8; 4], conn_ack: u16, unacked_seq: u16, rea
                     out.push(Foreign { kind: format!("control{}|{}", ctrl, tn), bytes: b });
                 }
             }
+            // close messages with the shortest possible payloads (shorter than a token)
+            for r in [&b""[..], &b"a"[..], &b"ab"[..]] {
+                if let Some(b) = write6(p6::Packet::Connected(p6::ConnectedPacket { ack, token, type_: p6::ConnectedPacketType::Control(p6::ControlPacket::Close(r)) })) {
+                    out.push(Foreign { kind: format!("control4-short|{}", tn), bytes: b });
+                }
+            }
             let (n, data) = plausible_chunks(false, conn_ack, rng);
             if let Some(b) = write6(p6::Packet::Connected(p6::ConnectedPacket { ack, token, type_: p6::ConnectedPacketType::Chunks(rng.bool(), n, &data) })) {
                 out.push(Foreign { kind: format!("chunks|{}", tn), bytes: b });
@@ -130,6 +136,11 @@ fn foreign6(rng: &mut Rng, agreed: [u8; 4], conn_ack: u16, unacked_seq: u16, rea
             let cut = rng.range(3, r.len() as i64 - 1) as usize;
             out.push(Foreign { kind: "real-truncated".into(), bytes: r[..cut].to_vec() });
         }
+    }
+    // bare control datagrams: header + control byte only, any ack
+    for ctrl in 0..6u8 {
+        let ack = if rng.bool() { unacked_seq } else { rng.below(1024) as u16 };
+        out.push(Foreign { kind: "bare-control".into(), bytes: vec![0x10 | (ack >> 8) as u8, ack as u8, 0, ctrl] });
     }
     // random bytes with a connection-oriented flag pattern
     for _ in 0..3 {
